@@ -523,4 +523,103 @@ theorem tok_clean (t : Tok) (hw : TokWF t) (hs : ∀ b, t ≠ .str b) (he : ∀ 
   | op o => cases o <;> decide
   | _ => decide
 
+/-! ### a split string literal is re-joined -/
+
+/-- the expression the parser builds from `'x1' + 'x2' + …`: the left-nested sum of the literals -/
+def sumExpr : List Char → List (List Char) → Expr
+  | x, [] => .lit (.str x)
+  | x, y :: ys => sumFrom (.lit (.str x)) (y :: ys)
+where sumFrom : Expr → List (List Char) → Expr
+  | acc, [] => acc
+  | acc, y :: ys => sumFrom (.bin .plus acc (.lit (.str y))) ys
+
+theorem joinStr_sumFrom : ∀ (ys : List (List Char)) (a : List Char) (acc : Expr), joinStr acc = .lit (.str a) →
+    joinStr (sumExpr.sumFrom acc ys) = .lit (.str (a ++ ys.flatten)) := by
+  intro ys
+  induction ys with
+  | nil => intro a acc h; simpa [sumExpr.sumFrom] using h
+  | cons y ys ih =>
+    intro a acc h
+    have : joinStr (.bin .plus acc (.lit (.str y))) = .lit (.str (a ++ y)) := by
+      simp [joinStr, h]
+    have := ih (a ++ y) _ this
+    simpa [sumExpr.sumFrom, List.append_assoc] using this
+
+theorem joinStr_sumExpr (x : List Char) (ys : List (List Char)) : joinStr (sumExpr x ys) = .lit (.str (x ++ ys.flatten)) := by
+  cases ys with
+  | nil => simp [sumExpr, joinStr]
+  | cons y ys' => exact joinStr_sumFrom (y :: ys') x _ (by simp [joinStr])
+
+theorem binParen_plus_chain : binParen .plus true (some .plus) = false := by decide
+
+/-- the tokens of a left-nested sum of literals, as a left operand of `+` or at top level without parentheses -/
+theorem toks_sumFrom : ∀ (ys : List (List Char)) (acc : Expr) (p : Bool) (q : Option BinOp),
+    (ys ≠ [] → binParen .plus p q = false) →
+    (∀ p' q', (∃ a b, acc = .bin .plus a b) → binParen .plus p' q' = false → True) →
+    toks Shared.clean (sumExpr.sumFrom acc ys) p q
+      = (if ys = [] then toks Shared.clean acc p q else toks Shared.clean acc true (some .plus))
+        ++ ys.flatMap (fun y => [.op .plus, .str (escQ y)]) := by
+  intro ys
+  induction ys with
+  | nil => intro acc p q _ _; simp [sumExpr.sumFrom]
+  | cons y ys ih =>
+    intro acc p q hp _
+    have hpq := hp (by simp)
+    have hr : rprev .plus = none := rprev_none .plus
+    have := ih (.bin .plus acc (.lit (.str y))) p q (fun _ => hpq) (fun _ _ _ _ => trivial)
+    rw [sumExpr.sumFrom, this]
+    by_cases hys : ys = []
+    · subst hys
+      simp [toks, hpq, hr, litToks]
+    · simp [hys, toks, binParen_plus_chain, hr, litToks]
+
+theorem sumToks_cons (g : List Char) (gs : List (List Char)) :
+    sumToks (g :: gs) = .str g :: gs.flatMap (fun g' => [.op .plus, .str g']) := by
+  induction gs generalizing g with
+  | nil => rfl
+  | cons g' gs ih => simp [sumToks, ih g']
+
+theorem wfE_sumFrom : ∀ (ys : List (List Char)) (acc : Expr), wfE acc → wfE (sumExpr.sumFrom acc ys) := by
+  intro ys
+  induction ys with
+  | nil => intro acc h; simpa [sumExpr.sumFrom] using h
+  | cons y ys ih => intro acc h; exact ih _ (by simp [wfE, h, LitWF])
+
+theorem wfE_sumExpr (x : List Char) (ys : List (List Char)) : wfE (sumExpr x ys) := by
+  cases ys with
+  | nil => simp [sumExpr, wfE, LitWF]
+  | cons y ys' => exact wfE_sumFrom _ _ (by simp [wfE, LitWF])
+
+theorem toks_sumExpr (x : List Char) (ys : List (List Char)) (p : Bool) (q : Option BinOp) (hp : ys ≠ [] → binParen .plus p q = false) :
+    toks Shared.clean (sumExpr x ys) p q = sumToks ((x :: ys).map escQ) := by
+  rw [List.map_cons, sumToks_cons]
+  cases ys with
+  | nil => simp [sumExpr, toks, litToks]
+  | cons y ys' =>
+    rw [sumExpr, toks_sumFrom (y :: ys') _ p q hp (fun _ _ _ _ => trivial)]
+    simp [toks, litToks, List.flatMap_map]
+
+theorem sumFrom_snoc : ∀ (ys : List (List Char)) (acc : Expr) (z : List Char),
+    sumExpr.sumFrom acc (ys ++ [z]) = .bin .plus (sumExpr.sumFrom acc ys) (.lit (.str z)) := by
+  intro ys
+  induction ys with
+  | nil => intro acc z; rfl
+  | cons y ys ih => intro acc z; simp [sumExpr.sumFrom, ih]
+
+theorem sumExpr_eq (x : List Char) (ys : List (List Char)) : sumExpr x ys = sumExpr.sumFrom (.lit (.str x)) ys := by
+  cases ys <;> rfl
+
+theorem toks_sumExpr_paren (x : List Char) (ys : List (List Char)) (hne : ys ≠ []) :
+    toks Shared.clean (sumExpr x ys) true none = [.lp] ++ sumToks ((x :: ys).map escQ) ++ [.rp] := by
+  rcases List.eq_nil_or_concat ys with h | ⟨ys0, z, h⟩
+  · exact absurd h hne
+  · subst h
+    have hr : rprev .plus = none := rprev_none .plus
+    have hp : binParen .plus true none = true := by decide
+    have hA := toks_sumExpr x ys0 true (some .plus) (fun _ => binParen_plus_chain)
+    rw [sumExpr_eq, List.concat_eq_append, sumFrom_snoc, ← sumExpr_eq]
+    simp only [toks, hp, if_true, hr, hA, litToks]
+    rw [List.map_cons, sumToks_cons, List.map_cons, sumToks_cons]
+    simp [List.flatMap_append, List.map_append]
+
 end StepModel.Express
